@@ -75,6 +75,14 @@ PROPS = {
                           {"group": "idxk", "name": "bounded_idxcheck_1contig", "bound": "1 contig of length 1..=3", "timeout": 600}],
         "bounded": [],
     },
+    "C13": {
+        "level": "proof",
+        "verus": [("weedfrag", ["u64", "u128"]), ("kmer", ["u64", "u128"])],
+        "functions": ["weed.row_step", "RefSka::new.collect_record", "SplitKmer::new", "SplitKmer::build", "SplitKmer::roll_fwd", "SplitKmer::update_rc",
+                      "SplitKmer::get_curr_kmer", "SplitKmer::get_next_kmer", "SplitKmer::get_middle_pos"],
+        "kani": [("weedwrap", None)],
+        "bounded": [],
+    },
     "C14": {
         "level": "other",
         "explanation": "BOUNDED check only (never counted as proved): Kani on the real MergeSkaArray::variant_dist with two symbolic columns of length 3 over {A,C,G,T,-} and a symbolic constant in 0..3, exact f64 comparison, against 'SNP count over shared k-mers / one-sided over union'; plus the complete enumeration of base_to_prob weights (C15 harness). distance() (rayon) and the --min-freq pre-filter bookkeeping in generic_modes::distance are outside the decided kernel.",
@@ -135,6 +143,8 @@ KANI_GROUPS = {
     "vcffrag": {"attach": "src/ska_ref.rs", "file": "vcffrag_harness.rs", "incrate_unit": "vcffrag_k", "complete": True, "timeout": 1500},
     "tablefrag": {"fragment_unit": "tablefrag_k", "file": "tablefrag_harness.rs", "complete": True},
     "rowfragk": {"fragment_unit": "rowfrag_k", "file": "rowfrag_harness.rs", "complete": False},
+    "weedwrap": {"attach": "src/merge_ska_array.rs", "file": "weedwrap_harness.rs", "complete": True, "args": ["-Z", "stubbing"],
+                 "attach_also": [("src/ska_ref.rs", "weedhelp_harness.rs", "weedhelp")]},
     "wrappers": {"attach": "src/merge_ska_array.rs", "file": "wrappers_harness.rs", "complete": True, "args": ["-Z", "stubbing"]},
     "bitops": {"attach": "src/ska_dict/bit_encoding.rs", "file": "bitops_harness.rs", "complete": True},
     "nthash": {"attach": "src/ska_dict/nthash.rs", "file": "nthash_harness.rs", "complete": True},
